@@ -25,11 +25,14 @@ Definition missing_of (c : json) : list string :=
 Definition opts_of (c : json) : opts :=
   let o := jget "opts" c in mkOpts (jget_bool "skip" o) (jget_bool "cont" o) (jget_bool "abs" o).
 
-Definition s0 : st := mkSt [] [] [] "".
+Definition s0 : st := mkSt [] [] [] "" false.
 
 Definition out_json (r : eres (st * json)) : json :=
   match r with
-  | Done (s, j) => JObj [("err", JBool false); ("out", j); ("loads", JArr (map JStr (rev (log s))))]
+  | Done (s, j) =>
+      (* the implementation's result is a typed document: what is observed is its encoding *)
+      let j' := match norm gen_env j (TNamed "Swagger") with ROk v => v | _ => j end in
+      JObj [("err", JBool false); ("out", j'); ("loads", JArr (map JStr (rev (log s))))]
   | Failed sf => JObj [("err", JBool true); ("out", JNull); ("loads", JArr (map JStr (rev (log sf))))]
   | OOF => JObj [("oof", JBool true)]
   | Unsup => JObj [("unsupported", JBool true)]
@@ -51,8 +54,18 @@ Definition run_expand (c : json) : json :=
     | None => jerr "no root document"
     end
   else if op =? "resolve" then
-    (* Resolve*WithBase with a root given through its location only *)
-    match resolve gen_env served "/" None s0 None (jget_str "ref" c) root (jget_str "kind" c) with
+    (* Resolve*WithBase: the root as typed objects, as generic JSON, or through its location only *)
+    let mode := jget_str "root_mode" c in
+    let rdoc := assoc root all in
+    let live := if mode =? "none" then None
+                else match rdoc with
+                     | Some d => if mode =? "typed"
+                                 then match norm gen_env d (TNamed "Swagger") with ROk nd => Some (root, nd) | _ => Some (root, d) end
+                                 else Some (root, d)
+                     | None => None
+                     end in
+    let rroot := match live with Some _ => Some root | None => None end in
+    match resolve gen_env served "/" live s0 rroot (jget_str "ref" c) root (jget_str "kind" c) with
     | Done (s, j) => JObj [("err", JBool false); ("out", j)]
     | Failed _ => JObj [("err", JBool true); ("out", JNull)]
     | OOF => JObj [("oof", JBool true)]
